@@ -243,13 +243,51 @@ fn fam_props(ctx: &CaseCtx, cov: &mut Cov) -> CaseOut {
     out
 }
 
-/// chunk-size extremes: 1-byte chunks, 64 KiB raw, 2 MiB unpacked from <= 64 KiB packed
+/// A literal program whose range-coded payload is EXACTLY `target` bytes long
+/// (65536 = the largest compressed size the 16-bit field can express).
+fn program_with_packed_len(rng: &mut Rng, props: crate::refmodel::lzma::Props, target: u64) -> Option<Vec<Sym>> {
+    use crate::refmodel::lzma::{Encoder, Model};
+    for _ in 0..40 {
+        let mut model = Model::new(props);
+        let mut hist = Vec::new();
+        let mut enc = Encoder::new(&mut model, &mut hist);
+        let mut prog = Vec::new();
+        loop {
+            let c = enc.rc.decoder_consumed();
+            if c == target {
+                return Some(prog);
+            }
+            if c > target {
+                break;
+            }
+            let s = Sym::Lit(rng.byte());
+            let _ = enc.push(&s);
+            prog.push(s);
+        }
+    }
+    None
+}
+
+/// chunk-size extremes: 1-byte chunks, 64 KiB raw, 2 MiB unpacked from <= 64 KiB packed,
+/// compressed payloads of exactly 65535 / 65536 bytes
 fn fam_sizes(ctx: &CaseCtx, cov: &mut Cov) -> CaseOut {
     let mut out = CaseOut::default();
     let mut rng = ctx.rng();
     let props = random_props_l2(&mut rng);
     let mut chunks = Vec::new();
-    match ctx.index % 4 {
+    match ctx.index % 5 {
+        4 => {
+            // the compressed-size field at its maximum (0xFFFF = 65536 bytes) and one below
+            let target = if (ctx.index / 5) % 2 == 0 { 65536 } else { 65535 };
+            match program_with_packed_len(&mut rng, props, target) {
+                Some(prog) => {
+                    chunks.push(Chunk::Lzma { reset: 3, props, prog });
+                    chunks.push(Chunk::Lzma { reset: 0, props, prog: vec![Sym::Rep { idx: 0, len: 4 }, Sym::Lit(rng.byte())] });
+                    cov.name(if target == 65536 { "chunk_with_packed_size_65536" } else { "chunk_with_packed_size_65535" }, 1);
+                }
+                None => return out,
+            }
+        }
         0 => {
             // many one-byte chunks of every class
             chunks.push(Chunk::Lzma { reset: 3, props, prog: vec![Sym::Lit(rng.byte())] });
@@ -275,7 +313,7 @@ fn fam_sizes(ctx: &CaseCtx, cov: &mut Cov) -> CaseOut {
             // exactly 2 MiB unpacked: 64 literals then long matches
             let mut prog: Vec<Sym> = (0..64).map(|_| Sym::Lit(rng.byte())).collect();
             let mut produced = 64usize;
-            let target = if ctx.index % 4 == 2 { 1usize << 21 } else { (1usize << 21) - rng.range(0, 300) as usize };
+            let target = if ctx.index % 5 == 2 { 1usize << 21 } else { (1usize << 21) - rng.range(0, 300) as usize };
             while produced < target {
                 let len = (target - produced).min(273);
                 if len < 2 {
@@ -338,6 +376,9 @@ fn floors(_: Tier, cov: &Cov) -> Vec<String> {
     if cov.get_named("copies_reaching_into_earlier_lzma_chunk") < 100 || cov.get_named("copies_reaching_into_earlier_raw_chunk") < 100 {
         m.push("too few cross-chunk copies".into());
     }
+    if cov.maxes.get("chunk_packed").copied().unwrap_or(0) < 65536 {
+        m.push("no chunk with the maximal compressed size 65536 decoded".into());
+    }
     if cov.maxes.get("chunk_unpacked").copied().unwrap_or(0) < (1 << 21) {
         m.push("no 2 MiB chunk decoded".into());
     }
@@ -348,13 +389,13 @@ pub fn monitor(tier: Tier) -> Monitor {
     Monitor {
         id: "C02",
         level: "exploration",
-        rule: "cases = chunk sequences (random over the 6 control classes with inherited state; property changes keeping / changing lc+lp; size extremes 1 byte / 64 KiB raw / 2 MiB from <= 64 KiB; liblzma-written multi-chunk streams) serialised by the reference LZMA2 writer, decoded by lzma2_decompress / raw Lzma2Decoder / xz_decompress; every generated stream is also decoded by liblzma; non-trivial = the Chunk hook saw >= 1 chunk parsed; distinct by hash of (input, api)",
+        rule: "cases = chunk sequences (random over the 6 control classes with inherited state; property changes keeping / changing lc+lp; size extremes 1 byte / 64 KiB raw / 2 MiB from <= 64 KiB / compressed payload of exactly 65535 and 65536 bytes; liblzma-written multi-chunk streams) serialised by the reference LZMA2 writer, decoded by lzma2_decompress / raw Lzma2Decoder / xz_decompress; every generated stream is also decoded by liblzma; non-trivial = the Chunk hook saw >= 1 chunk parsed; distinct by hash of (input, api)",
         assumptions: vec![
             "ground truth = interpret() over the chunk programs with the history cut at dictionary resets".into(),
             "only sequences liblzma also accepts are generated (first chunk resets the dictionary, properties follow a dictionary reset, lc+lp<=4)".into(),
         ],
         families: vec![
-            Family { name: "sizes", count: tier.pick(16, 200), priority: true, enumerated: false, run: fam_sizes },
+            Family { name: "sizes", count: tier.pick(20, 250), priority: true, enumerated: false, run: fam_sizes },
             Family { name: "random", count: tier.pick(12_000, 600_000), priority: false, enumerated: false, run: fam_random },
             Family { name: "props", count: tier.pick(4_000, 150_000), priority: false, enumerated: false, run: fam_props },
             Family { name: "extremes", count: tier.pick(300, 8_000), priority: false, enumerated: false, run: fam_extremes },
